@@ -1,0 +1,173 @@
+//go:build verif
+
+package tea
+
+// Verification hooks (build tag "verif"): thin wrappers that expose
+// unexported functions and types to the external correspondence harness.
+// Nothing in this file is compiled into normal builds.
+
+import (
+	"context"
+	"fmt"
+	"io"
+	"time"
+)
+
+// VerifDetectOneMsg exposes detectOneMsg.
+func VerifDetectOneMsg(b []byte, canHaveMoreData bool) (int, Msg) {
+	return detectOneMsg(b, canHaveMoreData)
+}
+
+// VerifReadAnsiInputs exposes readAnsiInputs.
+func VerifReadAnsiInputs(ctx context.Context, msgs chan<- Msg, input io.Reader) error {
+	return readAnsiInputs(ctx, msgs, input)
+}
+
+// VerifDescribeMsg renders an input message canonically for diffing.
+func VerifDescribeMsg(m Msg) string {
+	switch m := m.(type) {
+	case KeyMsg:
+		return fmt.Sprintf("K %d %v %t %t", int(m.Type), []int32(m.Runes), m.Alt, m.Paste)
+	case MouseMsg:
+		return fmt.Sprintf("M %d %d %t %t %t %d %d %d", m.X, m.Y, m.Shift, m.Alt, m.Ctrl, int(m.Action), int(m.Button), int(m.Type))
+	case FocusMsg:
+		return "F"
+	case BlurMsg:
+		return "B"
+	case unknownInputByteMsg:
+		return fmt.Sprintf("U %d", int(m))
+	case unknownCSISequenceMsg:
+		return fmt.Sprintf("C %v", []byte(m))
+	case nil:
+		return "nil"
+	}
+	return fmt.Sprintf("? %T", m)
+}
+
+// VerifFramerate exposes the frame interval newRenderer computes for fps.
+func VerifFramerate(fps int) time.Duration {
+	return newRenderer(io.Discard, false, fps).(*standardRenderer).framerate
+}
+
+// VerifRenderer drives a standardRenderer without its ticker goroutine.
+type VerifRenderer struct{ r *standardRenderer }
+
+// VerifNewRenderer creates a standard renderer writing to out.
+func VerifNewRenderer(out io.Writer, fps int) *VerifRenderer {
+	return &VerifRenderer{r: newRenderer(out, false, fps).(*standardRenderer)}
+}
+
+func (v *VerifRenderer) Write(s string)          { v.r.write(s) }
+func (v *VerifRenderer) Flush()                  { v.r.flush() }
+func (v *VerifRenderer) HandleMsg(m Msg)         { v.r.handleMessages(m) }
+func (v *VerifRenderer) Repaint()                { v.r.handleMessages(repaintMsg{}) }
+func (v *VerifRenderer) PrintLine(s string)      { v.r.handleMessages(printLineMessage{messageBody: s}) }
+func (v *VerifRenderer) Resize(w, h int)         { v.r.handleMessages(WindowSizeMsg{Width: w, Height: h}) }
+func (v *VerifRenderer) ClearScreen()            { v.r.clearScreen() }
+func (v *VerifRenderer) EnterAltScreen()         { v.r.enterAltScreen() }
+func (v *VerifRenderer) ExitAltScreen()          { v.r.exitAltScreen() }
+func (v *VerifRenderer) ShowCursor()             { v.r.showCursor() }
+func (v *VerifRenderer) HideCursor()             { v.r.hideCursor() }
+func (v *VerifRenderer) EnableMouseCell()        { v.r.enableMouseCellMotion() }
+func (v *VerifRenderer) DisableMouseCell()       { v.r.disableMouseCellMotion() }
+func (v *VerifRenderer) EnableMouseAll()         { v.r.enableMouseAllMotion() }
+func (v *VerifRenderer) DisableMouseAll()        { v.r.disableMouseAllMotion() }
+func (v *VerifRenderer) EnableMouseSGR()         { v.r.enableMouseSGRMode() }
+func (v *VerifRenderer) DisableMouseSGR()        { v.r.disableMouseSGRMode() }
+func (v *VerifRenderer) EnablePaste()            { v.r.enableBracketedPaste() }
+func (v *VerifRenderer) DisablePaste()           { v.r.disableBracketedPaste() }
+func (v *VerifRenderer) EnableFocus()            { v.r.enableReportFocus() }
+func (v *VerifRenderer) DisableFocus()           { v.r.disableReportFocus() }
+func (v *VerifRenderer) SetWindowTitle(s string) { v.r.setWindowTitle(s) }
+
+// Stop and Kill run stop()/kill() with the ticker handshake already done
+// (there is no listener goroutine in the harness).
+func (v *VerifRenderer) Stop() { v.r.once.Do(func() {}); v.r.stop() }
+func (v *VerifRenderer) Kill() { v.r.once.Do(func() {}); v.r.kill() }
+
+// VerifRendererState is the part of the renderer state the model mirrors.
+type VerifRendererState struct {
+	LinesRendered, AltLinesRendered, Width, Height, Queued int
+	Alt, CursorHidden, BP, Focus                           bool
+	LastRender                                             string
+	BufLen                                                 int
+}
+
+func (v *VerifRenderer) State() VerifRendererState {
+	r := v.r
+	return VerifRendererState{
+		LinesRendered: r.linesRendered, AltLinesRendered: r.altLinesRendered,
+		Width: r.width, Height: r.height, Queued: len(r.queuedMessageLines),
+		Alt: r.altScreenActive, CursorHidden: r.cursorHidden, BP: r.bpActive, Focus: r.reportingFocus,
+		LastRender: r.lastRender, BufLen: r.buf.Len(),
+	}
+}
+
+// VerifPrintLineMsg and VerifRepaintMsg construct unexported messages.
+func VerifPrintLineMsg(s string) Msg { return printLineMessage{messageBody: s} }
+func VerifRepaintMsg() Msg           { return repaintMsg{} }
+
+// VerifMsgKind classifies runtime-internal messages for logging.
+func VerifMsgKind(m Msg) string {
+	switch m.(type) {
+	case QuitMsg:
+		return "quit"
+	case InterruptMsg:
+		return "interrupt"
+	case SuspendMsg:
+		return "suspend"
+	case ResumeMsg:
+		return "resume"
+	case clearScreenMsg:
+		return "clearScreen"
+	case enterAltScreenMsg:
+		return "enterAlt"
+	case exitAltScreenMsg:
+		return "exitAlt"
+	case enableMouseCellMotionMsg:
+		return "mouseCell"
+	case enableMouseAllMotionMsg:
+		return "mouseAll"
+	case disableMouseMsg:
+		return "mouseOff"
+	case showCursorMsg:
+		return "showCursor"
+	case hideCursorMsg:
+		return "hideCursor"
+	case enableBracketedPasteMsg:
+		return "pasteOn"
+	case disableBracketedPasteMsg:
+		return "pasteOff"
+	case enableReportFocusMsg:
+		return "focusOn"
+	case disableReportFocusMsg:
+		return "focusOff"
+	case execMsg:
+		return "exec"
+	case BatchMsg:
+		return "batch"
+	case sequenceMsg:
+		return "sequence"
+	case setWindowTitleMsg:
+		return "title"
+	case windowSizeMsg:
+		return "windowSizeQuery"
+	case WindowSizeMsg:
+		return "WindowSize"
+	case printLineMessage:
+		return "printLine"
+	case repaintMsg:
+		return "repaint"
+	case KeyMsg:
+		return "key"
+	case MouseMsg:
+		return "mouse"
+	case FocusMsg:
+		return "focus"
+	case BlurMsg:
+		return "blur"
+	case nil:
+		return "nil"
+	}
+	return "user"
+}
